@@ -326,6 +326,21 @@ pub fn diff_pool(quick: bool, seed: u64) -> Vec<Tree> {
             }
         }
     }
+    // power towers, both groupings, with non-integer literals (an exponent identity such as (a^b)^c = a^(b*c) is
+    // only valid for positive bases or integer exponents): never sampled away
+    let lp = [v("x"), v("y"), l("2"), l("0.5"), l("1.5"), l("3")];
+    for a in &lp {
+        for c in &lp {
+            for d in &lp {
+                let nvars = [a, c, d].iter().filter(|t| matches!(t, Tree::Var(_))).count();
+                if nvars == 0 {
+                    continue;
+                }
+                pool.push(Tree::bin(o.pow, Tree::bin(o.pow, a.clone(), c.clone()), d.clone()));
+                pool.push(Tree::bin(o.pow, a.clone(), Tree::bin(o.pow, c.clone(), d.clone())));
+            }
+        }
+    }
     // every function over a leaf, over a binary, nested and inside arithmetic
     let fk: Vec<u16> = DIFF_FUNCS.iter().map(|f| k(f)).collect();
     let neg = o.sub;
@@ -937,6 +952,18 @@ pub fn c05(args: &Args) -> i32 {
     } else {
         pool.iter().filter(|t| t.size() <= 6).step_by(2).cloned().collect()
     };
+    // a variable beside a function of other variables (the first derivative loses a variable; see C09)
+    let mut pool2 = pool2;
+    {
+        let o = ops();
+        for f in ["cos", "exp"] {
+            for g in [Tree::bin(o.mul, l("2"), v("y")), Tree::bin(o.mul, v("y"), v("z")), Tree::bin(o.pow, v("y"), l("2"))] {
+                pool2.push(Tree::bin(o.mul, v("x"), Tree::un(k(f), g.clone())));
+                pool2.push(Tree::bin(o.add, Tree::un(k(f), g.clone()), v("a")));
+                pool2.push(Tree::bin(o.mul, Tree::un(k(f), g.clone()), v("z")));
+            }
+        }
+    }
     let tab3 = tab.clone();
     let pool2: Vec<Tree> = if want("second-order") { pool2 } else { vec![] };
     let (o3, w3) = par_calc(args, &tab, true, &pool2, &move |t: &Tree, _i, out| check_derivative(&tab3, t, 2, &[Form::Flat, Form::Deep], out, 48));
@@ -1120,14 +1147,47 @@ pub fn c09(args: &Args) -> i32 {
         Tree::bin(o.mul, Tree::bin(o.mul, Tree::bin(o.mul, v("b"), v("a")), v("z")), v("x")),
         Tree::bin(o.sub, Tree::bin(o.div, v("x"), v("a")), v("y")),
     ];
-    let max_len = if quick { 3 } else { 4 };
+    // a variable beside a function of OTHER variables: the first derivative loses a variable that sorts before or
+    // after the surviving ones, and the second differentiation works on an expression whose variable list is longer
+    // than the variables that occur (index re-basing in var_names_union / var_names_like_other)
+    let mut pool = pool;
+    let n_fixed = pool.len();
+    {
+        let inner: Vec<Tree> = vec![
+            Tree::bin(o.pow, v("y"), l("2")),
+            Tree::bin(o.mul, v("y"), v("z")),
+            Tree::bin(o.mul, l("2"), v("y")),
+            Tree::bin(o.add, v("y"), v("z")),
+            Tree::bin(o.mul, v("a"), v("y")),
+            Tree::bin(o.mul, v("x"), v("y")),
+        ];
+        let funcs: &[&str] = if quick { &["cos", "exp"] } else { &["cos", "exp", "sin", "ln", "tanh", "sqrt"] };
+        for f in funcs {
+            for g in &inner {
+                for lone in ["x", "z", "a"] {
+                    if g.var_names().iter().any(|n| n == lone) && lone != "x" {
+                        continue;
+                    }
+                    for &kk in &[o.mul, o.add, o.div] {
+                        pool.push(Tree::bin(kk, v(lone), Tree::un(k(f), g.clone())));
+                        if kk != o.add {
+                            pool.push(Tree::bin(kk, Tree::un(k(f), g.clone()), v(lone)));
+                        }
+                    }
+                }
+            }
+        }
+    }
+    let max_len_fixed = if quick { 3 } else { 4 };
+    let max_len_family = if quick { 2 } else { 3 };
     let _ = std::panic::take_hook();
     std::panic::set_hook(Box::new(|_| {}));
     let tabc = tab.clone();
-    let (out, wall) = par_calc(args, &tab, true, &pool, &move |t: &Tree, _i, out| {
+    let (out, wall) = par_calc(args, &tab, true, &pool, &move |t: &Tree, i, out| {
         let text = render(t, &Style::default());
         let names = t.var_names();
         let n = names.len();
+        let max_len = if i < n_fixed { max_len_fixed } else { max_len_family };
         out.stats.programs += 1;
         for form in [Form::Flat, Form::Deep] {
             for s in seqs(n, max_len) {
@@ -1288,7 +1348,7 @@ pub fn c09(args: &Args) -> i32 {
     let _ = std::panic::take_hook();
     let part = to_part("bookkeeping", out, wall, json!({
         "pool": pool.iter().map(|t| render(t, &Style::default())).collect::<Vec<_>>(),
-        "index_sequences": format!("all sequences of length 0..={max_len} over 0..=n (n = number of variables, so every sequence with an out-of-range entry at any position is included)"),
+        "index_sequences": format!("all sequences of length 0..={max_len_fixed} (first {n_fixed} expressions) resp. 0..={max_len_family} (family `v op f(g)` / `f(g) op v`, f a function, g a binary over other variables) over 0..=n (n = number of variables, so every sequence with an out-of-range entry at any position is included)"),
         "checks": ["out-of-range index anywhere => Err for partial_iter, partial_iter_relaxed (both modes), partial, partial_nth", "var_names(derivative) == var_names(antiderivative)",
             "partial_iter(seq) == sequential partial calls (solver, NRA)", "partial_nth(i,k) == k x partial(i)", "order 0 == identity", "mixed partials agree in either order (solver, NRA)"],
         "forms": ["flat", "deep"],
